@@ -78,7 +78,7 @@ def scene_case(spec):
 
 def run(res):
     quick = res.tier == "quick"
-    specs = [dict(seed=res.seed, idx=i, max_patches=(18 if quick else 34)) for i in range(10 if quick else 120)]
+    specs = [dict(seed=res.seed, idx=i, max_patches=(18 if quick else 34)) for i in range(10 if quick else 300)]
     for r in fw.run_parallel(scene_case, specs):
         res.absorb(r)
     res.rule = ("non-cubic shoeboxes with per-wall absorption (incl. exact 0/1), 1-2 bands, m >= 0, orders 1-4, "
